@@ -197,11 +197,94 @@ fn source_label(s: usize) -> &'static str {
     ["in_file", "built_in", "both_equal", "both_conflicting(built-in applies)", "both_conflicting(in-file applies)"][s]
 }
 
+/// Two MODULEs, each with its own A2ML block; both definitions use the same tag with another member
+/// type. The applicable definition for IF_DATA of a module is the A2ML block of that module: every
+/// value must survive load and write exactly, in both modules.
+fn two_modules_case(rng: &mut Rng, rec: &mut Recorder) {
+    // (type in the first module, type in the second module, literal for the second module that is
+    // exact under the second type but not under the first)
+    const FAMILY: [(&str, &str, &str, &str); 6] = [
+        ("float", "ulong", "7", "16777217"),
+        ("double", "uint64", "2.5", "18446744073709551615"),
+        ("float", "double", "0.5", "0.1"),
+        ("float", "long", "1.5", "-2147483647"),
+        ("double", "int64", "3.5", "-9223372036854775807"),
+        ("ulong", "ulong", "4", "4000000000"),
+    ];
+    let (t1, t2, v1, v2) = *rng.pick(&FAMILY);
+    let swap = rng.chance(1, 3);
+    let (t1, t2, v1, v2) = if swap { (t2, t1, v2, v1) } else { (t1, t2, v1, v2) };
+    let member = |t: &str| if rng_free_block(t) { format!("\"X\" {t};") } else { format!("\"X\" {t};") };
+    let text = format!(
+        "ASAP2_VERSION 1 71\n/begin PROJECT p \"\"\n/begin MODULE m1 \"\"\n/begin A2ML\n  block \"IF_DATA\" taggedunion {{ {} }};\n/end A2ML\n/begin IF_DATA X {v1} /end IF_DATA\n/end MODULE\n/begin MODULE m2 \"\"\n/begin A2ML\n  block \"IF_DATA\" taggedunion {{ {} }};\n/end A2ML\n/begin IF_DATA X {v2} /end IF_DATA\n/begin MEASUREMENT x \"\" UBYTE NO_COMPU_METHOD 0 0 0 255 /begin IF_DATA X {v2} /end IF_DATA /end MEASUREMENT\n/end MODULE\n/end PROJECT\n",
+        member(t1),
+        member(t2)
+    );
+    rec.eval();
+    rec.nontrivial(text.as_bytes());
+    rec.bump("two_modules.cases");
+    let strict = rng.coin();
+    match load_str_spec(&text, None, strict) {
+        Err((sig, detail)) => rec.violation(&sig, &detail, witness_text("C18 two modules", &text, "")),
+        Ok(Err(e)) => rec.violation(
+            &format!("two modules with their own A2ML blocks: document is rejected: {}", crate::gram::err_class(&e)),
+            &e.to_string(),
+            witness_text("C18 two modules", &text, ""),
+        ),
+        Ok(Ok((a, _))) => {
+            let all_valid = a.project.module.iter().all(|m| m.if_data.iter().all(|i| i.ifdata_valid));
+            if !all_valid {
+                rec.violation(
+                    "two modules with their own A2ML blocks: conforming IF_DATA is flagged invalid",
+                    &format!("types {t1} / {t2}"),
+                    witness_text("C18 two modules", &text, ""),
+                );
+            }
+            match crate::gram::write(&a) {
+                Err((sig, detail)) => rec.violation(&sig, &detail, witness_text("C18 two modules", &text, "")),
+                Ok(out) => {
+                    // every literal behind a tag X must be written with exactly its input value
+                    let vals = |t: &str| -> Vec<String> {
+                        vcommon::lexer::lex(t)
+                            .map(|toks| {
+                                toks.windows(2)
+                                    .filter(|w| w[0].text == "X")
+                                    .map(|w| match &w[1].val {
+                                        vcommon::doc::Val::Int(i) => format!("{}", *i as f64),
+                                        vcommon::doc::Val::Float(f) => format!("{f}"),
+                                        other => format!("{other:?}"),
+                                    })
+                                    .collect()
+                            })
+                            .unwrap_or_default()
+                    };
+                    let (vi, vo) = (vals(&text), vals(&out));
+                    if vi != vo {
+                        rec.violation(
+                            "two modules with their own A2ML blocks: IF_DATA value changed by load+write (the definition of another module was applied)",
+                            &format!("types {t1} / {t2}: values {vi:?} written as {vo:?}"),
+                            witness_text("C18 two modules", &text, &out),
+                        );
+                    }
+                }
+            }
+        }
+    }
+}
+
+fn rng_free_block(_t: &str) -> bool {
+    false
+}
+
 pub fn run(args: &Args, rec: &mut Recorder) {
     rec.rule = "evaluation = one IF_DATA block: for a generated A2ML definition (named/anonymous/referenced types, 10 scalar types, arrays, char[n], enums with and without values, repeated tagged items, inner repetition, blocks, depth <= 4) conforming instances (a quarter of them with comments in front of, between and behind their tokens) must be flagged valid and single-token deviations (wrong token kind, unknown tag, unknown enum item, surplus token, integer out of range) must load, be flagged invalid and be kept as data; in both cases the written text must hold exactly the input tokens (values and integer notation); ifdata_cleanup() must remove exactly the invalid blocks. The definition is supplied in the file, as built-in specification, or both (equal / conflicting). distinct_nontrivial = distinct (definition, instance) texts by content hash".into();
     rec.assumptions.push("conformance holds by construction of the instance generator (globally unique tags and enum items make it unambiguous); multiplicity of non-repeating tagged items and strings longer than char[n] are not judged".into());
     let n_defs: u64 = if args.thorough { 200_000 } else { 8_000 };
     run_cases(args, rec, n_defs, crate::util::reset_budget, |rng, case, rec| {
+        if case % 16 == 5 {
+            two_modules_case(rng, rec);
+            return None;
+        }
         let def = gen_def(rng);
         let def_text = render_def(&def, rng);
         for f in &def.features {
@@ -431,6 +514,7 @@ pub fn run(args: &Args, rec: &mut Recorder) {
     }
     for s in 0..5 {
         rec.floor(&format!("definition.{}", source_label(s)), 3);
+        rec.floor("two_modules.cases", 5);
     }
 }
 
